@@ -31,6 +31,7 @@ type FuncCtx struct {
 	mutatedParam map[string]bool
 	loopOrd      map[*ssa.BasicBlock]int
 	loopHeadSt   map[*ssa.BasicBlock]*State
+	loopFrames   map[*ssa.BasicBlock][]string
 	ghostVars    map[string]SV
 	depth        int
 	nRet         int
@@ -89,7 +90,7 @@ func (v *Verifier) VerifyFunction(key string) {
 	}()
 	fc := &FuncCtx{v: v, fn: fn, spec: spec, key: key, short: shortFuncName(key), paramSV: map[string]SV{}, allocsByName: map[string][]*ssa.Alloc{},
 		cellClass: map[*ssa.Alloc]bool{}, safeCount: map[string]int{}, callCount: map[string]int{}, mutatedParam: map[string]bool{},
-		loopOrd: map[*ssa.BasicBlock]int{}, loopHeadSt: map[*ssa.BasicBlock]*State{}, ghostVars: map[string]SV{}}
+		loopOrd: map[*ssa.BasicBlock]int{}, loopHeadSt: map[*ssa.BasicBlock]*State{}, ghostVars: map[string]SV{}, loopFrames: map[*ssa.BasicBlock][]string{}}
 	for _, g := range spec.Ghosts {
 		so, gt, err := v.resolveTypeOrSort(g.Type)
 		if err != nil {
@@ -891,6 +892,15 @@ func (fc *FuncCtx) loopHead(fr *Frame, ci *cfgInfo, h *ssa.BasicBlock, st *State
 		gks = append(gks, g)
 	}
 	sort.Strings(gks)
+	// automatic heap frame invariant for heaps written in the loop: objects that are not modifies targets of
+	// the function keep their entry value (checked on entry and at every back edge like any invariant)
+	for _, g := range gks {
+		if strings.HasPrefix(g, "H_") {
+			fc.loopFrames[h] = append(fc.loopFrames[h], g)
+			v.addObligation(&Obligation{Name: fmt.Sprintf("%s#loop%d.init.frame_%s", fc.short, k, g), Kind: "inv.init", Func: fc.key,
+				Assume: st.pc, Goal: fc.heapFrameTerm(st, g), Expect: "unsat", Src: "objects of " + g + " outside the modifies clause are unchanged"})
+		}
+	}
 	for _, g := range gks {
 		old := v.getGlobal(ns, g)
 		t := c.Fresh(tag+"."+g, v.globalSort(g))
@@ -898,6 +908,9 @@ func (fc *FuncCtx) loopHead(fr *Frame, ci *cfgInfo, h *ssa.BasicBlock, st *State
 		if g == "$alloc" {
 			ns.assume(c, c.Cmp(">=", t, old))
 		}
+	}
+	for _, g := range fc.loopFrames[h] {
+		ns.assume(c, fc.heapFrameTerm(ns, g))
 	}
 	fc.loopHeadSt[h] = ns.clone()
 	env = fc.loopEnv(fr, h, ns, 1)
@@ -924,6 +937,10 @@ func (fc *FuncCtx) loopBack(fr *Frame, ci *cfgInfo, h *ssa.BasicBlock, st *State
 		if u.Where == "back" {
 			fc.applyUse(st, fc.loopEnv(fr, h, st, 1), u)
 		}
+	}
+	for _, g := range fc.loopFrames[h] {
+		v.addObligation(&Obligation{Name: fmt.Sprintf("%s#loop%d.preserve.frame_%s", fc.short, k, g), Kind: "inv.preserve", Func: fc.key,
+			Assume: st.pc, Goal: fc.heapFrameTerm(st, g), Expect: "unsat", Src: "objects of " + g + " outside the modifies clause are unchanged"})
 	}
 	env := fc.loopEnv(fr, h, st, 1)
 	for i, inv := range fc.spec.LoopInv[k] {
